@@ -1241,6 +1241,45 @@ pub fn templates() -> Vec<(String, Case)> {
             },
         ),
         (
+            // 150 pending unbondings from two validators and three delegators, interleaved; slashes while they are
+            // pending; partial maturity; everything paid in the end
+            "long-unbonding-queue".into(),
+            Case {
+                params: Params { unbonding: 3600, ..p.clone() },
+                ops: {
+                    let mut ops = vec![
+                        SOp::Delegate { d: 0, v: v0.clone(), amount: 10_000, denom: t.clone() },
+                        SOp::Delegate { d: 1, v: v0.clone(), amount: 7_000, denom: t.clone() },
+                        SOp::Delegate { d: 2, v: v1.clone(), amount: 9_000, denom: t.clone() },
+                        SOp::Delegate { d: 0, v: v1.clone(), amount: 4_000, denom: t.clone() },
+                    ];
+                    for i in 0..150u128 {
+                        let (d, v) = match i % 4 {
+                            0 => (0, v0.clone()),
+                            1 => (1, v0.clone()),
+                            2 => (2, v1.clone()),
+                            _ => (0, v1.clone()),
+                        };
+                        ops.push(SOp::Undelegate { d, v, amount: 1 + i % 7, denom: t.clone() });
+                        if i % 25 == 24 {
+                            ops.push(adv(20 * 60));
+                        }
+                        if i == 60 {
+                            ops.push(SOp::Slash { v: v0.clone(), p: "0.25".into() });
+                        }
+                        if i == 110 {
+                            ops.push(SOp::Slash { v: v1.clone(), p: "0.1".into() });
+                        }
+                    }
+                    ops.push(adv(30 * 60));
+                    ops.push(SOp::Slash { v: v0.clone(), p: "0.5".into() });
+                    ops.push(adv(3600));
+                    ops.push(adv(3600));
+                    ops
+                },
+            },
+        ),
+        (
             "basic-flow".into(),
             Case {
                 params: p.clone(),
